@@ -183,6 +183,8 @@ func pointMutation(a, b string, vocabulary map[string]bool) string {
 	switch {
 	case isNum(x) && isNum(y):
 		return "constant changed"
+	case (x == "true" || x == "false") && (y == "true" || y == "false"):
+		return "constant changed"
 	case isWord(x) && isWord(y) && diff > 0 && ta[diff-1] == "." && vocabulary[x]:
 		return "another field compared"
 	}
@@ -324,6 +326,131 @@ func (c *Ctx) ruleConditionRatchet(rule string, pkgs []string, fileFilter func(s
 			r.Add(oblT(rule, fk, cons, file, "ok", "comparisons were restructured beyond a point change: not decided", nil, true))
 		} else {
 			r.Bad(rule, fk, cons, file, "a condition was changed — "+strings.Join(muts, "; "))
+		}
+	}
+}
+
+// callArgSigs: per function (closures folded in), the calls that pass at least one constant argument, described as
+// callee(arg, …) with the operands rendered as in the condition ratchet.
+func (c *Ctx) callArgSigs(pkgs []string) map[string][]string {
+	out := map[string][]string{}
+	for _, short := range pkgs {
+		for _, fn := range c.P.FuncsIn(short) {
+			if fn.Blocks == nil {
+				continue
+			}
+			file := c.P.Pos(ir.Outer(fn).Pos())
+			if strings.Contains(file, ".pb.go") || strings.Contains(file, "_string.go") {
+				continue
+			}
+			fk := ir.OuterKey(fn)
+			for _, b := range fn.Blocks {
+				for _, in := range b.Instrs {
+					ci, ok := in.(ssa.CallInstruction)
+					if !ok {
+						continue
+					}
+					n := calleeName(c, ci.Common())
+					if n == "" || n == "clone" {
+						continue
+					}
+					hasConst := false
+					var args []string
+					for i, a := range ci.Common().Args {
+						if i == 0 && ci.Common().StaticCallee() != nil && ci.Common().StaticCallee().Signature.Recv() != nil {
+							args = append(args, describeVal(a, 0))
+							continue
+						}
+						if k, ok := a.(*ssa.Const); ok && k.Value != nil {
+							hasConst = true
+						}
+						args = append(args, describeVal(a, 0))
+					}
+					if hasConst {
+						out[fk] = append(out[fk], n+"("+strings.Join(args, ", ")+")")
+					}
+				}
+			}
+		}
+	}
+	for fk := range out {
+		sort.Strings(out[fk])
+	}
+	return out
+}
+
+// ruleArgumentRatchet: no call has had one of its constant arguments replaced by another constant.
+func (c *Ctx) ruleArgumentRatchet(rule string, pkgs []string, fileFilter func(string) bool, baselineFile string, min int) {
+	r := c.R
+	r.Rule(rule, "constant-argument ratchet: the committed baseline records, per function, the calls that pass a constant (a flag, a mode, an enum value) together with their other operands. In a function with the same number of such calls, a recorded call that vanished and has a counterpart differing from it in exactly one constant argument has had that argument changed — the lock taken in read instead of write mode, the replay of accepted routes turned into a replay of all routes", min)
+	var base map[string][]string
+	b, err := os.ReadFile(filepath.Join(homeDir(), baselineFile))
+	if err != nil || json.Unmarshal(b, &base) != nil {
+		r.Undec(rule, "-", "baseline:"+baselineFile, "-", "baseline file missing or unreadable")
+		return
+	}
+	cur := c.callArgSigs(pkgs)
+	var keys []string
+	for k := range base {
+		keys = append(keys, k)
+	}
+	sort.Strings(keys)
+	for _, fk := range keys {
+		inPkgs := false
+		for _, pk := range pkgs {
+			if strings.Contains(fk, pk+".") {
+				inPkgs = true
+			}
+		}
+		if !inPkgs {
+			continue
+		}
+		fn := c.P.Func(fk)
+		cons := fmt.Sprintf("%d calls with constant arguments", len(base[fk]))
+		if fn == nil {
+			r.Add(oblT(rule, fk, cons, "-", "ok", "the function no longer exists: not decided", nil, true))
+			continue
+		}
+		file := c.P.Pos(ir.Outer(fn).Pos())
+		if i := strings.LastIndex(file, ":"); i > 0 {
+			file = file[:i]
+		}
+		if fileFilter != nil && !fileFilter(file) {
+			continue
+		}
+		now := cur[fk]
+		if len(now) != len(base[fk]) {
+			r.Add(oblT(rule, fk, cons, file, "ok", "the number of such calls changed: not decided", nil, true))
+			continue
+		}
+		cnt := map[string]int{}
+		for _, s := range base[fk] {
+			cnt[s]++
+		}
+		for _, s := range now {
+			cnt[s]--
+		}
+		var gone, added []string
+		for s, n := range cnt {
+			for ; n > 0; n-- {
+				gone = append(gone, s)
+			}
+			for ; n < 0; n++ {
+				added = append(added, s)
+			}
+		}
+		sort.Strings(gone)
+		sort.Strings(added)
+		mut := ""
+		if len(gone) == 1 && len(added) == 1 {
+			if kind := pointMutation(gone[0], added[0], map[string]bool{}); kind == "constant changed" {
+				mut = "[" + gone[0] + "] became [" + added[0] + "]"
+			}
+		}
+		if mut == "" {
+			r.Ok(rule, fk, cons, file, "no constant argument replaced")
+		} else {
+			r.Bad(rule, fk, cons, file, "a constant argument was changed — "+mut)
 		}
 	}
 }
